@@ -110,8 +110,10 @@ CHECKS = {
  'C08': dict(category='other',
              text='Symbolic: for every mutator and EVERY order of ranked_jumpers, log exactness (accepted call appended exactly, refused call '
                   'changes nothing) and post-state = function of observable pre-state and argument (C02 harness) - replay equality by induction; '
-                  'bounded: from_actions replay, to_matrix/from_matrix round trip, trials, per-height interleavings on random competition prefixes.',
-             note=_TB + ' from_matrix/to_matrix and the interleaving clause are bounded only (labelled).',
+                  'from_actions itself is under contract for a log of any length (loop cut, ghost counter: every logged action replayed once, in order, on one '
+                  'fresh instance, no early exit); swap lemma on the rule machine for the jumping order; '
+                  'bounded: to_matrix/from_matrix round trip, trials, per-height interleavings on random competition prefixes.',
+             note=_TB + ' from_matrix/to_matrix are bounded only (labelled); the swap lemma is over the abstract machine, linked to the code by the per-method obligations.',
              technique='contract-based deductive verification (log exactness + determinism per method) + bounded stand-in (replay, card round trip, schedules)'),
  'C07': dict(category='other',
              text='Symbolic (z3): (i) the five helper normalisers on shape-typed strings of their pattern group: value preserved, canonical '
